@@ -208,8 +208,11 @@ def run(rep, tier, rng):
         if c.status == "inconclusive":
             continue
         if c.status == "compile_fail":
-            msg = next((d["message"] for d in c.diags if d["level"] == "error"), "")
-            code = next((str(d["code"]) for d in c.diags if d["level"] == "error"), "")
+            who, d0 = C.blame(c)
+            if who == "harness":
+                rep.inconcl(f"generated program does not compile outside derive_ex's output: {str(d0['message'])[:150]}")
+                continue
+            msg, code = d0["message"] or "", str(d0["code"])
             sigs.setdefault(f"C08|compile_fail|{code}|{msg[:50]}", []).append((c, f"does not compile: {msg[:200]}"))
             continue
         rep.count("types_run")
